@@ -188,6 +188,33 @@ fn mesh2_num(t: &mut Toks, cx: &mut Ctx) -> String {
                 cx.check(*a == ex, "2-D trapezium not exact for a bilinear integrand"); }
         } }
     }
+    // node accessors and the two text forms (whole mesh / one variable); the text is compared character
+    // for character with the model (spaces -> ',', newlines -> '/', so that it stays one token)
+    let (gx, gy) = (guarded(|| m.xnodes()), guarded(|| m.ynodes()));
+    if let (Ok(a), Ok(b)) = (&gx, &gy) { cx.check(same_vec(&a.vec, &xn) && same_vec(&b.vec, &yn), "xnodes()/ynodes() differ from the nodes the mesh was built from"); }
+    out.push_str(&format!(" xn {} yn {}", match &gx { Ok(v) => wr_vector(v), Err(c) => format!("!{}", c) }, match &gy { Ok(v) => wr_vector(v), Err(c) => format!("!{}", c) }));
+    let prec = 1 + (nx + 2 * ny + nvars) % 6;
+    let dir = std::path::PathBuf::from(std::env::var("OHSL_VERIF_TMP").unwrap_or_else(|_| "/verif/work/tmp".to_string())); let _ = std::fs::create_dir_all(&dir);
+    let path = dir.join(format!("mesh2-{}-{}.dat", std::process::id(), nx * 100 + ny));
+    let ps = path.to_str().unwrap().to_string();
+    let enc = |s: String| if s.is_empty() { "-".to_string() } else { s.replace(' ', ",").replace('\n', "/") };
+    let check_text = |cx: &mut Ctx, text: &str, vars: Vec<usize>, what: &str| {
+        let lines: Vec<&str> = text.split('\n').collect();
+        let mut k = 0; let mut ok = true; let tolp = 0.5 * 10f64.powi(-(prec as i32)) * 1.0000001;
+        for j in 0..ny { for i in 0..nx {
+            let toks: Vec<f64> = lines.get(k).map(|l| l.split_whitespace().filter_map(|w| w.parse::<f64>().ok()).collect()).unwrap_or_default(); k += 1;
+            if toks.len() != 2 + vars.len() { ok = false; continue; }
+            ok &= (toks[0] - xn[i]).abs() <= tolp && (toks[1] - yn[j]).abs() <= tolp;
+            for (c, q) in vars.iter().enumerate() { let v = m[(i, j)][*q]; ok &= (toks[2 + c] - v).abs() <= tolp + 1e-15 * v.abs(); } }
+            ok &= lines.get(k).map(|l| l.is_empty()).unwrap_or(false); k += 1; }
+        cx.check(ok, &format!("{}: the file does not list x, y and the variables of every node (y outer, x inner, blank line after each y) to the printed precision", what)); };
+    let r = guarded(|| { m.output(&ps, prec); std::fs::read_to_string(&ps).unwrap_or_default() });
+    if let Ok(text) = &r { if m[(0, 0)].vec.iter().all(|v| v.is_finite()) || nx * ny == 0 { check_text(cx, text, (0..nvars).collect(), "output"); } }
+    out.push_str(&format!(" file {} {}", prec, match r { Ok(s) => enc(s), Err(c) => format!("!{}", c) }));
+    let r = guarded(|| { m.output_var(&ps, 0, prec); std::fs::read_to_string(&ps).unwrap_or_default() });
+    if let Ok(text) = &r { if nvars > 0 { check_text(cx, text, vec![0], "output_var"); } }
+    out.push_str(&format!(" filevar {}", match r { Ok(s) => enc(s), Err(c) => format!("!{}", c) }));
+    let _ = std::fs::remove_file(&path);
     out
 }
 
